@@ -115,6 +115,23 @@ def r2_r3_edge_errors(ctx):
                         else:
                             ctx.ok("C19.R3", loc(fi), f"edge validation | {atoms} -> {len(probs)} problem(s)")
     ctx.table("C19.R3", table)
+    # names are arbitrary: a dangling endpoint whose task / name *concatenation* reads like an existing endpoint is still dangling
+    nodes3 = {"ens.mean": _tb(outs={"0": "int"}), "snk": _tb(ins={"x": "int"}), "snk.x": _tb(ins={"y": "int"}), "src": _tb(outs={"0": "int"})}
+    for label, e in (("source task 'ens' (missing) with output 'mean.0' — reads like output '0' of the existing task 'ens.mean'", _edge("ens", "mean.0", "snk", kw="x")),
+                     ("sink task 'snk' with keyword 'x.y' (missing) — reads like parameter 'y' of the existing task 'snk.x'", _edge("src", "0", "snk", kw="x.y"))):
+        _, paths = _build_paths(repo, nodes3, [e])
+        ctx.evals(len(paths))
+        for p in paths:
+            rv = p.exit[1] if p.exit[0] == "return" else None
+            is_err = isinstance(rv, App) and rv.fname.endswith("Either.error")
+            probs = rv.args[0] if is_err and rv.args and isinstance(rv.args[0], list) else []
+            if p.exit[0] != "return" or not probs:
+                ctx.violation("C19.R3", fi.qual, loc(fi), "dangling endpoint with a dotted name reported",
+                              f"edge with {label}: build reports no problem ({p.exit[0]} {vkey(rv)[:60]}) — endpoints are identified by (task, name) pairs, not by the text "
+                              f"'task.name'; the job is accepted with an edge that starts or ends nowhere")
+                break
+        else:
+            ctx.ok("C19.R3", loc(fi), f"dangling endpoint reported | {label.split(' — ')[0]}")
     # direction of the declared-type compatibility test: the *output* type must be a subclass of the *input* type
     nodes2 = {"src": _tb(outs={"0": "bool"}), "snk": _tb(ins={"x": "int"})}
     _, paths = _build_paths(repo, nodes2, [_edge("src", "0", "snk", kw="x")])
@@ -257,6 +274,37 @@ def r7_models_take_values_verbatim(ctx):
                 continue
             n += 1
             ctx.analysed(fi.qual)
+            if cname == "JobInstance" and fi.params[:1] == ["self"] and mname not in ("__init__", "__new__"):
+                # an "after" hook sees the finished job: it must leave the tasks' bound values alone — they are the values the caller gave, and the
+                # TaskInstance objects are shared with the builder and with every other job built from it
+                TI = Obj(CORE + "TaskInstance", {"definition": Obj(CORE + "TaskDefinition", {"input_schema": {"a": "int", "b": "int"}, "output_schema": {"0": "int"}}, name="DEF"),
+                                                 "static_input_kw": {"a": 1, "b": 2}, "static_input_ps": {"0": 7}}, name="TASK")
+                SRC = Obj(CORE + "TaskInstance", {"definition": Obj(CORE + "TaskDefinition", {"input_schema": {}, "output_schema": {"0": "int"}}, name="DEF0"),
+                                                  "static_input_kw": {}, "static_input_ps": {}}, name="SRC")
+                edge = Obj(CORE + "Task2TaskEdge", {"source": Obj(CORE + "DatasetId", {"task": "s", "output": "0"}, frozen=True), "sink_task": "t", "sink_input_kw": "a", "sink_input_ps": None})
+                job = Obj(CORE + "JobInstance", {"tasks": {"s": SRC, "t": TI}, "edges": [edge], "ext_outputs": [], "serdes": {}}, name="JOB")
+                bad = None
+                for p in Interp(repo, max_concrete_iter=8).explore(fi, args={"self": job}):
+                    if p.exit[0] != "return":
+                        continue
+                    t2 = None
+                    for e in p.effects:
+                        for v in e.data.values():
+                            if isinstance(v, Obj) and v.name == "TASK":
+                                t2 = v
+                    rvj = p.exit[1]
+                    tt = (rvj.fields.get("tasks") or {}).get("t") if isinstance(rvj, Obj) else None
+                    for cand in (t2, tt):
+                        if isinstance(cand, Obj) and (cand.fields.get("static_input_kw") != {"a": 1, "b": 2} or cand.fields.get("static_input_ps") != {"0": 7}):
+                            bad = cand
+                if bad is not None:
+                    ctx.violation("C19.R7", fi.qual, loc(fi), "a finished job's bound values are left alone",
+                                  f"{ci.name}.{mname} runs on a job whose task t has a=1, b=2 bound by keyword, 7 at position 0 and a keyword edge into `a`: afterwards the task holds "
+                                  f"kw={vkey(bad.fields.get('static_input_kw'))} ps={vkey(bad.fields.get('static_input_ps'))} — values given through the builder are gone, and the "
+                                  f"task object is shared with the builder and with jobs built earlier from it")
+                else:
+                    ctx.ok("C19.R7", loc(fi), f"{ci.name}.{mname}: bound values of the job's tasks unchanged")
+                continue
             if cname != "Task2TaskEdge" or mname in ("__init__", "__new__"):
                 ctx.undecided("C19.R7", loc(fi), f"{ci.name}.{mname} is a construction hook the rule has no model input for")
                 continue
